@@ -245,6 +245,27 @@ def run(ctx):
                                     ctx.fail(desc, 'an index column was requested but the output file has columns %r' % list(od)[:8])
                             except Exception as e:
                                 ctx.fail(desc, 'output file unreadable: %s' % str(e)[:200])
+            # ---- the same detection with the default reporting options and a CSV output file: the returned frame
+            # still holds exactly the failing records under their own labels, and no column it was not asked for
+            if v.failures > 0 and rng.random() < 0.4:
+                p2 = os.path.join(work, 'plain%d.csv' % ci)
+                try:
+                    with contextlib.redirect_stderr(io.StringIO()), contextlib.redirect_stdout(io.StringIO()):
+                        v2 = detect_df(df.copy(), d, epsilon=case['eps'], type_checking=tc, repair=False, outpath=p2,
+                                       index=rng.random() < 0.5)
+                    det2 = v2.detected()
+                    rows2 = [r for r in range(nrows) if nfail_want[r] > 0]
+                    ctx.bump('plain_options_run')
+                    if det2 is None or list(det2.index) != [labels[r] for r in rows2]:
+                        ctx.fail(desc, 'with default options and a CSV output file the returned frame holds the records labelled %r, '
+                                 'expected %r' % (None if det2 is None else list(det2.index)[:20], [labels[r] for r in rows2][:20]))
+                    elif [c_ for c_ in det2 if c_ in ('Index', 'RowNumber') and c_ not in case['cols']]:
+                        ctx.fail(desc, 'with default options the returned frame has columns %r' % list(det2)[:8])
+                except Exception as e:
+                    ctx.fail(desc, 'detect_df with default options raised %s: %s' % (type(e).__name__, str(e)[:200]),
+                             finding=classify_exc(case, e))
+                if os.path.exists(p2):
+                    os.remove(p2)
             # ---- input unchanged unless in place
             if not opts['in_place']:
                 if list(work_df.columns) != list(before.columns) or not work_df.equals(before):
